@@ -170,6 +170,71 @@ theorem private_payload_release_sound (cfg : Cfg) (env : Env) (n : Node) (peer :
     rw [hr] at hpl; cases hpl
 
 
+/-! ### "the payload of X goes only to X's list": FALSE of the code when two PAL-bearing transactions share a payload hash
+  (known finding C15:payload-of-other-transaction-released-via-shared-payload-hash; replayed on the real handlers) -/
+
+/-- no two PAL-bearing transactions of the node have the same payload hash -/
+def PrivUnique (n : Node) : Prop :=
+  ∀ t ∈ n.dag, ∀ t' ∈ n.dag, t.pal ≠ [] → t'.pal ≠ [] → t.payloadHash = t'.payloadHash → t = t'
+
+/-- the full-strength statement: whenever a handler releases bytes that are the payload of a PAL-bearing transaction `X`
+    of the node, the peer is authenticated and its verified DID is on `X`'s decrypted list -/
+def ReleaseOnlyToListedStmt : Prop :=
+  ∀ (cfg : Cfg) (env : Env) (n : Node) (peer : Peer) (m : Msg), StoreOK n → PrivSeparate n →
+    ∀ o ∈ allOut env (handle cfg env n peer m), ∀ ref p, o.2 = .payload ref (some p) →
+      ∀ X ∈ n.dag, X.pal ≠ [] → X.payloadHash = p.sha →
+        peer.authenticated = true ∧ ∃ dids, decryptPAL env n X.pal = .pal dids ∧ peer.did ∈ dids
+
+private def wEnv : Env :=
+  { decode := fun _ _ => .fail, order := id,
+    dec := fun kid c =>
+      if kid == "B#k" && c == 1 then .ok [some "A", some "B"]        -- Y, for [A, B]
+      else if kid == "B#k" && c == 2 then .ok [some "B", some "C"]   -- X, for [B, C]
+      else .fail }
+private def wRoot : Tx := { ref := 1, clock := 0, prevs := [], pal := [], payloadHash := 10, sigOK := true, size := 10 }
+private def wX : Tx := { ref := 7, clock := 1, prevs := [1], pal := [2, 3], payloadHash := 70, sigOK := true, size := 10 }
+private def wY : Tx := { ref := 9, clock := 1, prevs := [1], pal := [0, 1], payloadHash := 70, sigOK := true, size := 10 }
+private def wB : Node :=
+  { id := 0, did := "B", kaks := [⟨"B#k", true⟩], dag := [wY, wX, wRoot],
+    payloads := [(70, ⟨"secret-of-X", 11, 70⟩), (10, ⟨"public", 6, 10⟩)] }
+private def wCfg : Cfg :=
+  { pageSize := 512, maxQueue := 100, rangePages := 2, msgOverhead := 512, txOverhead := 9, maxMsg := 524288, validity := 30,
+    blockState := false, blockList := true, blockRange := true, nextOne := (1, 2), nextTwo := (1, 3) }
+
+/-- **witness**: `B` holds `X` (list [B, C]) and the crafted `Y` (list [A, B], same payload hash); the authenticated peer
+    `A` asks for `Y` and receives the payload of `X`, although `A` is not on `X`'s list -/
+theorem release_only_to_listed_false : ¬ ReleaseOnlyToListedStmt := by
+  intro h
+  have hs : StoreOK wB := storeOK_of_all wB (by decide)
+  have hsep : PrivSeparate wB := by
+    intro t ht t' ht' hp hp'
+    simp only [wB, List.mem_cons, List.mem_nil_iff, or_false] at ht ht'
+    rcases ht with rfl | rfl | rfl <;> rcases ht' with rfl | rfl | rfl <;> simp_all [wX, wY, wRoot]
+  have := h wCfg wEnv wB { key := 5, authenticated := true, did := "A" } (.payloadQuery 9) hs hsep
+    (5, .payload 9 (some ⟨"secret-of-X", 11, 70⟩)) (by decide) 9 ⟨"secret-of-X", 11, 70⟩ rfl wX (by decide) (by decide) rfl
+  obtain ⟨_, dids, hd, hm⟩ := this
+  have hdec : decryptPAL wEnv wB wX.pal = .pal ["B", "C"] := by decide
+  rw [hdec] at hd
+  cases hd
+  simp at hm
+
+/-- **the proved part**: under the extra hypothesis that no two PAL-bearing transactions of the node share a payload
+    hash (`PrivUnique`), the full statement holds -/
+theorem release_only_to_listed_partial (cfg : Cfg) (env : Env) (n : Node) (peer : Peer) (m : Msg)
+    (hs : StoreOK n) (hsep : PrivSeparate n) (huniq : PrivUnique n)
+    (o : Nat × Msg) (ho : o ∈ allOut env (handle cfg env n peer m)) (ref : Ref) (p : Payload) (hpl : o.2 = .payload ref (some p))
+    (X : Tx) (hX : X ∈ n.dag) (hpal : X.pal ≠ []) (hh : X.payloadHash = p.sha) :
+    peer.authenticated = true ∧ ∃ dids, decryptPAL env n X.pal = .pal dids ∧ peer.did ∈ dids := by
+  obtain ⟨_, _, tx, htx, hrd, hyp⟩ := private_payload_release_sound cfg env n peer m o ho ref p hpl
+  have htm : tx ∈ n.dag := getTx_mem htx
+  have hsha : p.sha = tx.payloadHash := hs _ _ hrd
+  have htpal : tx.pal ≠ [] := by
+    intro he
+    exact hsep X hX tx htm hpal he (by rw [hh, hsha])
+  have : X = tx := huniq X hX tx htm hpal htpal (by rw [hh, hsha])
+  subst this
+  exact hyp hpal
+
 /-! ### "could decrypt" ⇔ "is on the list", for PALs produced by `PAL.Encrypt` under the ECIES contract -/
 
 /-- For a participant list encrypted by `PAL.Encrypt` (one ciphertext per participant, ECIES contract), a node
@@ -258,6 +323,19 @@ theorem payload_with_transaction_only_if_hash_matches (cfg : Cfg) (env : Env) (n
 theorem fact_authenticator_selection :
     Facts.C15.authenticatorAssignments = [["tlsEnabled", "grpc.NewTLSAuthenticator"], ["!(tlsEnabled)", "grpc.NewDummyAuthenticator"]] ∧
     Facts.C15.strictTLSErrorGuard = ["!(tlsEnabled)", "config.Strictmode"] ∧ Facts.C15.strictErrorBeforeDummy = true := by decide
+
+/-- the connection manager's TLS server requires AND verifies client certificates against the trust store, with the
+    minimum TLS version of the core package (TLS 1.2) -/
+theorem fact_server_tls_config :
+    Facts.C15.serverTLSConfig = ["ClientCAs=config.trustStore", "ClientAuth=tls.RequireAndVerifyClientCert"] ∧
+    Facts.C15.baseTLSConfig = ["MinVersion=core.MinTLSVersion"] ∧ Facts.C15.minTLSVersion = "tls.VersionTLS12" := by decide
+
+/-- hence the certificate `tlsAuthenticator` matches against the NutsComm host (`AuthIn.cert`) is one that chains to the
+    trust store: with the configured mode the server hands over a client certificate only if it was presented and verified -/
+theorem authenticated_certificate_is_verified (presented chains : Bool)
+    (h : serverAcceptsClient (ClientAuthMode.ofSource "tls.RequireAndVerifyClientCert") presented chains = true) :
+    presented = true ∧ chains = true := by
+  cases presented <;> cases chains <;> simp [serverAcceptsClient, ClientAuthMode.ofSource] at h ⊢
 
 /-- **the dummy authenticator is reachable only without TLS**: with TLS configured the TLS authenticator is
     installed in strict AND non-strict mode; in strict mode the dummy authenticator is never installed -/
